@@ -12,11 +12,18 @@
  * Approximation (stated in the evidence): an atomic load is taken to read from the latest store in
  * the explored order (SC); stale reads that only weak hardware shows are outside the model.
  */
+/* The detector's own table accesses are in range by construction (indices come from loops over the
+ * table sizes / thread ids): no bounds / overflow obligations are generated for this file. */
+#pragma CPROVER check push
+#pragma CPROVER check disable "bounds"
+#pragma CPROVER check disable "pointer"
+#pragma CPROVER check disable "signed-overflow"
+#pragma CPROVER check disable "pointer-overflow"
 #ifndef VF_RACE_ATOMS
-#define VF_RACE_ATOMS 8    /* slots of the atomic-object table (power of two) */
+#define VF_RACE_ATOMS 8    /* slots of the atomic-object table */
 #endif
 #ifndef VF_RACE_PROBES
-#define VF_RACE_PROBES 8   /* slots of the probe table (power of two) */
+#define VF_RACE_PROBES 8   /* slots of the probe table */
 #endif
 typedef unsigned char vf_clk;
 vf_clk vf_vc[VF_NTHREADS][VF_NTHREADS];       /* vector clock of each thread */
@@ -28,32 +35,32 @@ _Bool vf_has_relfence[VF_NTHREADS];
  * join over all heads = what an acquire operation reading the current value synchronises with. */
 vf_clk vf_at_hd[VF_RACE_ATOMS][VF_NTHREADS][VF_NTHREADS];
 vf_clk vf_at_vc[VF_RACE_ATOMS][VF_NTHREADS];
-uint64_t vf_at_key[VF_RACE_ATOMS];
+void *vf_at_key[VF_RACE_ATOMS];   /* pointer-typed keys: equality of concrete addresses folds at symex time */
 int vf_pr_wt[VF_RACE_PROBES];                 /* last writer thread, -1 none */
 vf_clk vf_pr_wc[VF_RACE_PROBES];              /* its clock */
 vf_clk vf_pr_rc[VF_RACE_PROBES][VF_NTHREADS]; /* last read clock per thread */
-uint64_t vf_pr_key[VF_RACE_PROBES];
+void *vf_pr_key[VF_RACE_PROBES];
 
-/* Both tables are keyed by the exact address (open addressing, linear probing, entries are never
- * removed), so two objects never share an entry: a shared atomic entry would add happens-before edges
+/* Both tables are keyed by the exact address (linear search, entries are never removed), so two objects never share an entry: a shared atomic entry would add happens-before edges
  * (missed races), a shared probe entry would invent races.  [An earlier version used direct-mapped
  * tables and cut (assume) every execution in which two probe addresses collided; with 6 probe addresses
  * in 8 slots that silently removed most executions -- a mutant-sized hole.]  A full table is reported
- * as an `rt:` failure (raise VF_RACE_ATOMS / VF_RACE_PROBES in rt_defs), never silently. */
-static int vf_race_slot(uint64_t *keys, int n, uint64_t k) {
-  int h = (int)(((k >> 54) ^ (k >> 6) ^ (k >> 2)) & (uint64_t)(n - 1));
+ * as an `rt:` failure (raise VF_RACE_ATOMS / VF_RACE_PROBES in rt_defs), never silently.
+ * Cost: a table whose keys are entered at schedule-dependent times has symbolic contents, and every
+ * later lookup yields a symbolic index (measured: 10x solver time).  Harnesses should therefore touch
+ * every atomic object (a relaxed load) and every probe address (vf_race_read) once in vf_main BEFORE
+ * the first vf_spawn: the keys are then constants, lookups of concrete addresses fold at symex time. */
+static int vf_race_slot(void **keys, int n, void *k) {
   int r = -1;
-  for (int j = 0; j < n; j++) {
-    int i = (h + j) & (n - 1);
+  for (int i = 0; i < n; i++) /* entries are filled in index order: the first match or the first free one */
     if (r < 0 && (keys[i] == k || keys[i] == 0)) r = i;
-  }
   __CPROVER_assert(r >= 0, "rt: race detector table full (raise VF_RACE_ATOMS / VF_RACE_PROBES)");
   __CPROVER_assume(r >= 0);
   return r;
 }
 static int vf_race_atom(void *p) {
-  int a = vf_race_slot(vf_at_key, VF_RACE_ATOMS, (uint64_t)p);
-  vf_at_key[a] = (uint64_t)p;
+  int a = vf_race_slot(vf_at_key, VF_RACE_ATOMS, p);
+  if (vf_at_key[a] == 0) vf_at_key[a] = p;
   return a;
 }
 static void vf_race_tick(int t) {
@@ -140,9 +147,9 @@ void vf_race_join(int child) {
     if (vf_vc[child][u] > vf_vc[t][u]) vf_vc[t][u] = vf_vc[child][u];
 }
 static int vf_race_probe(void *p) {
-  int i = vf_race_slot(vf_pr_key, VF_RACE_PROBES, (uint64_t)p);
+  int i = vf_race_slot(vf_pr_key, VF_RACE_PROBES, p);
   if (vf_pr_key[i] == 0) {
-    vf_pr_key[i] = (uint64_t)p;
+    vf_pr_key[i] = p;
     vf_pr_wt[i] = -1;
   }
   return i;
@@ -163,3 +170,4 @@ void vf_race_read(void *p) {
   VF_CHECK(ok, "data race: a read of shared payload is not ordered after the last write by another thread (declared memory orders give no happens-before edge)");
   vf_pr_rc[i][t] = vf_vc[t][t];
 }
+#pragma CPROVER check pop
